@@ -34,6 +34,9 @@ type Spec struct {
 	Blocks   bool    // offer block boundaries (slashing with window 2)
 	MaxNonce uint64  // highest event nonce offered
 	Threshold int64  // if >0 lower the delegate threshold to this many FX
+	// Rebond: narrowed alphabet around one oracle's full life cycle (vote, governance removal, 22 days, unbond,
+	// re-approval, re-bond, vote again) so that histories of that length come within the depth bound
+	Rebond bool
 
 	w      *world.World
 	os     []scen.Oracle
@@ -42,7 +45,7 @@ type Spec struct {
 }
 
 func (s *Spec) Name() string {
-	return fmt.Sprintf("vote/%s/%s/stakes=%v/extra=%v/var=%s/wrong=%v/exec=%v/mem=%v/blk=%v/max=%d", s.Prop, s.Chain, s.Stakes, s.Extra, strings.Join(s.Variants, ""), s.WrongN, s.Execute, s.Members, s.Blocks, s.MaxNonce)
+	return fmt.Sprintf("vote/%s/%s/stakes=%v/extra=%v/var=%s/wrong=%v/exec=%v/mem=%v/blk=%v/max=%d/rebond=%v", s.Prop, s.Chain, s.Stakes, s.Extra, strings.Join(s.Variants, ""), s.WrongN, s.Execute, s.Members, s.Blocks, s.MaxNonce, s.Rebond)
 }
 
 // Model holds the monitor's history variables.
@@ -290,6 +293,9 @@ func (s *Spec) Ops(st *explore.State) []explore.Op {
 	k := scen.Keeper(s.w, s.Chain)
 	ctx := st.Ctx
 	var ops []explore.Op
+	if s.Rebond {
+		return s.rebondOps(st)
+	}
 	for oi, o := range s.os {
 		last := k.GetLastEventNonceByOracle(ctx, o.Acct.Acc())
 		if last+1 <= s.MaxNonce {
@@ -393,6 +399,58 @@ func (s *Spec) Ops(st *explore.State) []explore.Op {
 	return ops
 }
 
+// rebondOps: the last bonded oracle votes, is removed by governance, unbonds after the unbonding time, is approved
+// and bonds again, and votes again; the other oracles only vote.
+func (s *Spec) rebondOps(st *explore.State) []explore.Op {
+	k := scen.Keeper(s.w, s.Chain)
+	ctx := st.Ctx
+	var ops []explore.Op
+	bonded := len(s.Stakes)
+	vi := bonded - 1
+	victim := s.os[vi]
+	for _, oi := range []int{vi, 0} {
+		if last := k.GetLastEventNonceByOracle(ctx, s.os[oi].Acct.Acc()); last+1 <= s.MaxNonce {
+			ops = append(ops, s.voteOp(oi, 1, "A"))
+		}
+	}
+	if k.IsProposalOracle(ctx, victim.Acct.Bech()) {
+		ops = append(ops, explore.Op{Name: fmt.Sprintf("Remove(o%d)", bonded), Run: func(c *explore.State) {
+			r := scen.Approve(s.w, c.Ctx, s.Chain, s.os[:vi])
+			c.Accepted = r.OK()
+			c.Outcome = map[bool]string{true: "ok", false: "rejected"}[r.OK()]
+		}})
+		if !k.HasOracle(ctx, victim.Acct.Acc()) {
+			ops = append(ops, s.msgOp(fmt.Sprintf("Bond(o%d)", bonded), func(sdk.Context) sdk.Msg {
+				return scen.BondMsg(s.Chain, victim, s.w.Vals[0].ValAddr(), world.FX(s.Stakes[vi]))
+			}))
+		}
+	} else {
+		ops = append(ops, explore.Op{Name: "ApproveAll", Run: func(c *explore.State) {
+			r := scen.Approve(s.w, c.Ctx, s.Chain, s.os)
+			c.Accepted = r.OK()
+			c.Outcome = map[bool]string{true: "ok", false: "rejected"}[r.OK()]
+		}})
+		if k.HasOracle(ctx, victim.Acct.Acc()) {
+			ops = append(ops, s.msgOp(fmt.Sprintf("Unbond(o%d)", bonded), func(sdk.Context) sdk.Msg {
+				return &cctypes.MsgUnbondedOracle{ChainName: s.Chain, OracleAddress: victim.Acct.Bech()}
+			}))
+		}
+	}
+	for _, b := range []struct {
+		name string
+		dt   time.Duration
+	}{{"Block", 5 * time.Second}, {"Block22d", 22 * 24 * time.Hour}} {
+		b := b
+		ops = append(ops, explore.Op{Name: b.name, Run: func(c *explore.State) {
+			next, res := s.w.NextBlock(c.Ctx, b.dt)
+			c.Ctx = next
+			c.Accepted = res.Err == nil && res.Panic == nil
+			c.Outcome = map[bool]string{true: "ok", false: "halt"}[c.Accepted]
+		}})
+	}
+	return ops
+}
+
 func (s *Spec) Check(st *explore.State) {
 	k := scen.Keeper(s.w, s.Chain)
 	ctx := st.Ctx
@@ -416,6 +474,13 @@ func (s *Spec) Check(st *explore.State) {
 	// at most one observed attestation per nonce
 	obsPer := map[uint64]int{}
 	k.IterateAttestationAndClaim(ctx, func(att *cctypes.Attestation, claim cctypes.ExternalClaim) bool {
+		seen := map[string]bool{}
+		for _, v := range att.Votes {
+			if seen[v] {
+				st.Violate("distinct-voters", s.sig("oracle-counted-twice"), fmt.Sprintf("nonce %d: voter %s appears twice in %v", claim.GetEventNonce(), v, att.Votes))
+			}
+			seen[v] = true
+		}
 		if att.Observed {
 			obsPer[claim.GetEventNonce()]++
 			if claim.GetEventNonce() > lo {
